@@ -417,19 +417,25 @@ Qed.
 (* ---------- the executable instance satisfies the hypotheses used above *)
 Lemma exact_op_nan op a b :
   pow_unit op a b = false -> num_is_nan a || num_is_nan b = true -> num_is_nan (exact_op op a b) = true.
-Proof. intros Hp Hn. unfold exact_op, exact_op_opt. rewrite Hp, Hn. reflexivity. Qed.
+Proof.
+  intros Hp Hn. unfold exact_op, exact_op_opt. destruct (num_promote a b). rewrite Hp, Hn.
+  destruct (is_div_op op && is_zero b); reflexivity.
+Qed.
 
 Lemma dy_op_mul_comm x y : dy_op OMul x y = dy_op OMul y x.
 Proof.
   destruct x as [m1 e1], y as [m2 e2]. unfold dy_op, dy_align. cbn [fst snd].
   rewrite (Z.mul_comm m1 m2), (Z.add_comm e1 e2). reflexivity.
 Qed.
+Lemma num_promote_swap a b : num_promote b a = (snd (num_promote a b), fst (num_promote a b)).
+Proof. destruct a, b; reflexivity. Qed.
 Lemma exact_op_mul_comm a b : exact_op OMul a b = exact_op OMul b a.
 Proof.
-  unfold exact_op, exact_op_opt. cbn [pow_unit].
-  rewrite (orb_comm (num_is_nan a)). rewrite (andb_comm (num_is_int a)).
+  unfold exact_op, exact_op_opt. rewrite (num_promote_swap a b).
+  destruct (num_promote a b) as [a' b']. cbn [fst snd pow_unit].
+  rewrite (orb_comm (num_is_nan a)). rewrite (andb_comm (num_is_int a')).
   destruct (num_is_nan b || num_is_nan a); [reflexivity|].
-  destruct (num_dy a) as [x|], (num_dy b) as [y|]; try reflexivity.
+  destruct (num_dy a') as [x|], (num_dy b') as [y|]; try reflexivity.
   rewrite (dy_op_mul_comm x y). reflexivity.
 Qed.
 
